@@ -546,7 +546,229 @@ Corollary put_elements k v t :
   sorted (elements t) -> elements (put k v t) = sm_put k v (elements t).
 Proof. intros. unfold put. rewrite elements_blacken. now apply ins_elements. Qed.
 
+(* ---------------- delete refines sm_remove ---------------- *)
+
+Lemma elements_mk sd c k v n s :
+  elements (mk sd c k v n s) =
+  match sd with SL => elements n ++ (k, v) :: elements s | SR => elements s ++ (k, v) :: elements n end.
+Proof. destruct sd; reflexivity. Qed.
+
+Ltac split_colours :=
+  repeat (simpl;
+    match goal with
+    | |- context [is_red ?t] => is_var t; destruct t as [|[] ? ? ? ?]
+    | |- context [is_black ?t] => is_var t; destruct t as [|[] ? ? ? ?]
+    end); unfold is_black; simpl.
+
+Lemma elements_cases3to6 c k v n s sd :
+  elements (fst (cases3to6 c k v n s sd)) =
+  match sd with SL => elements n ++ (k, v) :: elements s | SR => elements s ++ (k, v) :: elements n end.
+Proof.
+  unfold cases3to6. destruct s as [|sc sl sk sv sr]; [destruct sd; reflexivity|].
+  destruct sc, c, sd; split_colours; rewrite ?elements_blacken; simpl; norm_app; reflexivity.
+Qed.
+
+Lemma elements_fix_deficit c k v n s sd :
+  elements (fst (fix_deficit c k v n s sd)) =
+  match sd with SL => elements n ++ (k, v) :: elements s | SR => elements s ++ (k, v) :: elements n end.
+Proof.
+  unfold fix_deficit. destruct s as [|[] sl sk sv sr]; try apply elements_cases3to6.
+  destruct sd.
+  - pose proof (elements_cases3to6 R k v n sl SL) as H. destruct (cases3to6 R k v n sl SL). simpl in *.
+    rewrite H. norm_app. reflexivity.
+  - pose proof (elements_cases3to6 R k v n sr SR) as H. destruct (cases3to6 R k v n sr SR). simpl in *.
+    rewrite H. norm_app. reflexivity.
+Qed.
+
+Lemma elements_unlink c t : elements (fst (unlink c t)) = elements t.
+Proof. destruct c; reflexivity. Qed.
+
+Lemma del_max_elements t : t <> E ->
+  let '(mx, t', _) := del_max t in
+  exists p, mx = Some p /\ elements t = elements t' ++ [p].
+Proof.
+  induction t as [|c l IHl k v r IHr]; intros Hne; [congruence|]. simpl.
+  destruct r as [|rc rl rk rv rr].
+  - destruct c; simpl; exists (k, v); split; auto.
+  - assert (Hr : T rc rl rk rv rr <> E) by discriminate. specialize (IHr Hr).
+    destruct (del_max (T rc rl rk rv rr)) as [[mx r'] d]. destruct IHr as (p & -> & He).
+    destruct d.
+    + pose proof (elements_fix_deficit c k v r' l SR) as Hf.
+      destruct (fix_deficit c k v r' l SR) as [t' d']. simpl in Hf. exists p. split; auto.
+      rewrite Hf. simpl in He |- *. rewrite He. norm_app. reflexivity.
+    + exists p. split; auto. simpl in He |- *. rewrite He. norm_app. reflexivity.
+Qed.
+
+Lemma sm_remove_left x l1 k' v' l2 :
+  cmp x k' < 0 -> sm_remove x (l1 ++ (k', v') :: l2) = sm_remove x l1 ++ (k', v') :: l2.
+Proof.
+  intros Hlt. induction l1 as [|[a b] l1 IH]; simpl.
+  - destruct (cmp x k' <? 0) eqn:E1; [reflexivity|lia].
+  - destruct (cmp x a <? 0); [reflexivity|]. destruct (cmp x a >? 0); [now rewrite IH|reflexivity].
+Qed.
+
+Lemma sm_remove_right x l1 k' v' l2 :
+  cmp x k' > 0 -> Forall (fun a => ltk a (k', v')) l1 ->
+  sm_remove x (l1 ++ (k', v') :: l2) = l1 ++ (k', v') :: sm_remove x l2.
+Proof.
+  intros Hgt HF. induction l1 as [|[a b] l1 IH]; simpl.
+  - destruct (cmp x k' <? 0) eqn:E1; [lia|]. destruct (cmp x k' >? 0) eqn:E2; [reflexivity|lia].
+  - inv HF. unfold ltk in H1; simpl in H1.
+    assert (cmp a x < 0) by (apply lt_trans with k'; auto; apply cmp_antisym_lt; lia).
+    apply cmp_antisym_lt in H.
+    destruct (cmp x a <? 0) eqn:E1; [lia|]. destruct (cmp x a >? 0) eqn:E2; [|lia]. now rewrite IH.
+Qed.
+
+Lemma sm_remove_here x l1 k' v' l2 :
+  cmp x k' = 0 -> Forall (fun a => ltk a (k', v')) l1 ->
+  sm_remove x (l1 ++ (k', v') :: l2) = l1 ++ l2.
+Proof.
+  intros Heq HF. induction l1 as [|[a b] l1 IH]; simpl.
+  - destruct (cmp x k' <? 0) eqn:E1; [lia|]. destruct (cmp x k' >? 0) eqn:E2; [lia|reflexivity].
+  - inv HF. unfold ltk in H1; simpl in H1.
+    assert (cmp a x < 0) by (apply lt_le_trans with k'; auto; apply cmp_antisym_eq in Heq; lia).
+    apply cmp_antisym_lt in H.
+    destruct (cmp x a <? 0) eqn:E1; [lia|]. destruct (cmp x a >? 0) eqn:E2; [|lia]. now rewrite IH.
+Qed.
+
+Theorem del_elements x t :
+  sorted (elements t) -> elements (fst (del x t)) = sm_remove x (elements t).
+Proof.
+  induction t as [|c l IHl k v r IHr]; simpl; intros HS; [reflexivity|].
+  destruct (sorted_app_inv _ _ _ HS) as (S1 & S2 & F1 & F2).
+  destruct (cmp x k <? 0) eqn:E1.
+  - specialize (IHl S1). destruct (del x l) as [l' df]. simpl in IHl.
+    rewrite sm_remove_left by lia. rewrite <- IHl. destruct df.
+    + apply (elements_fix_deficit c k v l' r SL).
+    + reflexivity.
+  - destruct (cmp x k >? 0) eqn:E2.
+    + specialize (IHr S2). destruct (del x r) as [r' df]. simpl in IHr.
+      rewrite sm_remove_right by (auto; lia). rewrite <- IHr. destruct df.
+      * apply (elements_fix_deficit c k v r' l SR).
+      * reflexivity.
+    + rewrite sm_remove_here by (auto; lia).
+      destruct l as [|lc ll lk lv lr].
+      { destruct r as [|rc rl rk rv rr]; rewrite elements_unlink; simpl; auto. }
+      destruct r as [|rc rl rk rv rr].
+      { rewrite elements_unlink. simpl. now rewrite app_nil_r. }
+      pose proof (del_max_elements (T lc ll lk lv lr)) as DM.
+      destruct (del_max (T lc ll lk lv lr)) as [[mx l'] df].
+      destruct DM as (p & -> & He); [discriminate|]. destruct p as [pk pv].
+      rewrite He. destruct df.
+      * rewrite (elements_fix_deficit c pk pv l' (T rc rl rk rv rr) SL). norm_app. reflexivity.
+      * simpl. norm_app. reflexivity.
+Qed.
+
+Corollary remove_elements x t :
+  sorted (elements t) -> elements (remove x t) = sm_remove x (elements t).
+Proof. intros. unfold remove. rewrite elements_blacken. now apply del_elements. Qed.
+
+(* the reference operations keep the list sorted *)
+Lemma Forall_ltk_trans a b l : ltk a b -> Forall (ltk b) l -> Forall (ltk a) l.
+Proof.
+  intros Hab HF. rewrite Forall_forall in *. intros x Hx. unfold ltk in *.
+  apply lt_trans with (fst b); auto.
+Qed.
+
+Lemma sm_put_Forall (P : K * V -> Prop) k v m : Forall P m -> P (k, v) -> Forall P (sm_put k v m).
+Proof.
+  induction m as [|[k' v'] m IH]; simpl; intros HF HP; [constructor; auto|].
+  inv HF. destruct (cmp k k' =? 0); [constructor; auto|].
+  destruct (cmp k k' <? 0); constructor; auto.
+Qed.
+
+Lemma sm_remove_Forall (P : K * V -> Prop) k m : Forall P m -> Forall P (sm_remove k m).
+Proof.
+  induction m as [|[k' v'] m IH]; simpl; intros HF; [constructor|].
+  inv HF. destruct (cmp k k' <? 0); [constructor; auto|].
+  destruct (cmp k k' >? 0); [constructor; auto|auto].
+Qed.
+
+Lemma sm_put_sorted k v m : sorted m -> sorted (sm_put k v m).
+Proof.
+  induction m as [|[k' v'] m IH]; simpl; intros HS.
+  - repeat constructor.
+  - inv HS. destruct (cmp k k' =? 0) eqn:E1.
+    + constructor; auto. rewrite Forall_forall in *. intros x Hx. specialize (H2 x Hx).
+      unfold ltk in *. simpl in *. apply le_lt_trans with k'; auto. lia.
+    + destruct (cmp k k' <? 0) eqn:E2.
+      * constructor; [constructor; auto|]. constructor; [unfold ltk; simpl; lia|].
+        apply Forall_ltk_trans with (k', v'); auto. unfold ltk; simpl; lia.
+      * constructor; [apply IH; auto|]. apply sm_put_Forall; auto.
+        unfold ltk; simpl. apply cmp_antisym_lt. lia.
+Qed.
+
+Lemma sm_remove_sorted k m : sorted m -> sorted (sm_remove k m).
+Proof.
+  induction m as [|[k' v'] m IH]; simpl; intros HS; [constructor|].
+  inv HS. destruct (cmp k k' <? 0); [constructor; auto|].
+  destruct (cmp k k' >? 0); [|auto].
+  constructor; [apply IH; auto|]. now apply sm_remove_Forall.
+Qed.
+
+(* lookup *)
+Fixpoint lookup (x : K) (t : tree) : option V :=
+  match t with
+  | E => None
+  | T _ l k v r => let d := cmp x k in if d =? 0 then Some v else if d <? 0 then lookup x l else lookup x r
+  end.
+
+Fixpoint sm_get (x : K) (m : list (K * V)) : option V :=
+  match m with
+  | [] => None
+  | (k, v) :: m' => let d := cmp x k in if d =? 0 then Some v else if d <? 0 then None else sm_get x m'
+  end.
+
+Lemma sm_get_left x l1 k' v' l2 : cmp x k' < 0 -> sm_get x (l1 ++ (k', v') :: l2) = sm_get x l1.
+Proof.
+  intros Hlt. induction l1 as [|[a b] l1 IH]; simpl.
+  - destruct (cmp x k' =? 0) eqn:E1; [lia|]. destruct (cmp x k' <? 0) eqn:E2; [reflexivity|lia].
+  - destruct (cmp x a =? 0); [reflexivity|]. destruct (cmp x a <? 0); [reflexivity|]. exact IH.
+Qed.
+
+Lemma sm_get_right x l1 k' v' l2 :
+  cmp x k' >= 0 -> Forall (fun a => ltk a (k', v')) l1 ->
+  sm_get x (l1 ++ (k', v') :: l2) = sm_get x ((k', v') :: l2).
+Proof.
+  intros Hge HF. induction l1 as [|[a b] l1 IH]; [reflexivity|].
+  inv HF. unfold ltk in H1; simpl in H1.
+  assert (cmp a x < 0).
+  { apply lt_le_trans with k'; auto. destruct (Z.eq_dec (cmp x k') 0) as [E0|];
+      [apply cmp_antisym_eq in E0; lia|]. assert (cmp x k' > 0) by lia. apply cmp_antisym_lt in H. lia. }
+  apply cmp_antisym_lt in H. cbn [app sm_get].
+  destruct (cmp x a =? 0) eqn:E1; [lia|]. destruct (cmp x a <? 0) eqn:E2; [lia|]. now apply IH.
+Qed.
+
+Theorem lookup_elements x t : sorted (elements t) -> lookup x t = sm_get x (elements t).
+Proof.
+  induction t as [|c l IHl k v r IHr]; simpl; intros HS; [reflexivity|].
+  destruct (sorted_app_inv _ _ _ HS) as (S1 & S2 & F1 & F2).
+  destruct (cmp x k =? 0) eqn:E1.
+  - rewrite sm_get_right by (auto; lia). simpl. now rewrite E1.
+  - destruct (cmp x k <? 0) eqn:E2.
+    + rewrite sm_get_left by lia. auto.
+    + rewrite sm_get_right by (auto; lia). simpl. rewrite E1, E2. auto.
+Qed.
+
+(* every reachable tree is a valid red-black search tree and agrees with the reference map *)
+Definition Good t := RBInv t /\ sorted (elements t).
+
+Theorem put_good k v t : Good t -> Good (put k v t) /\ elements (put k v t) = sm_put k v (elements t).
+Proof.
+  intros [HI HS]. assert (He := put_elements k v t HS). repeat split; auto.
+  - now apply put_inv.
+  - rewrite He. now apply sm_put_sorted.
+Qed.
+
+Theorem remove_good x t : Good t -> Good (remove x t) /\ elements (remove x t) = sm_remove x (elements t).
+Proof.
+  intros [HI HS]. assert (He := remove_elements x t HS). repeat split; auto.
+  - now apply remove_inv.
+  - rewrite He. now apply sm_remove_sorted.
+Qed.
+
 End RB.
 
-Print Assumptions put_elements.
-Print Assumptions remove_inv.
+Print Assumptions put_good.
+Print Assumptions remove_good.
+Print Assumptions lookup_elements.
